@@ -60,7 +60,8 @@ def cases(tier):
     if tier != 'quick':
         # at most two kinds of field range over all CBOR head classes at once
         ws = ('P+seq', 'nums', 'age+seq')
-        out = [dict(x, wide=ws[i % 3]) for i, x in enumerate(out)] + [dict(x, wide=ws[(i + 1) % 3]) for i, x in enumerate(out) if i % 2 == 0]
+        out = ([dict(x, wide=ws[i % 3]) if x['hops'] < 2 else dict(x) for i, x in enumerate(out)]
+               + [dict(x, wide=ws[(i + 1) % 3]) for i, x in enumerate(out) if i % 2 == 0 and x['hops'] < 2])
     return out
 
 
